@@ -270,8 +270,12 @@ pub fn advance(v: &Mvm, to: ChainEpoch, dense: bool, each_tick: &mut dyn FnMut(C
                     each_tick(at, &i, r.code.is_success());
                 }
             }
+            _ if to - e <= 3000 => {
+                // nothing scheduled before `to`: idle epochs are skipped
+                v.set_epoch(to);
+            }
             _ => {
-                // one tick at the last idle epoch keeps `last_cron` adjacent, then jump
+                // long idle gap: one tick at the last idle epoch keeps `last_cron` adjacent, then jump
                 v.set_epoch(to - 1);
                 let (r, inv) = v.tick();
                 if let Some(i) = inv {
